@@ -291,6 +291,37 @@ Theorem C16_elem_write_refused : forall ideal st try cell v,
 Proof. exact elem_write_refused. Qed.
 Print Assumptions C16_elem_write_refused.
 
+(* bridged maps with narrow integer keys: a property name outside the key type's
+   range denotes no key (never found, writes and deletes under it leave the map
+   alone); an in-range name is exactly the Go key *)
+Theorem C16_key_out_of_range_is_no_key : forall ideal k n m v,
+  is_float k = false -> in_range k n = false ->
+  snd (kstep ideal (KKNum k) m (KGet (NInt n))) = o_undef /\
+  snd (kstep ideal (KKNum k) m (KHas (NInt n))) = o_bool false /\
+  fst (kstep ideal (KKNum k) m (KSet (NInt n) v)) = m /\
+  fst (kstep ideal (KKNum k) m (KDel (NInt n))) = m.
+Proof. exact key_out_of_range_is_no_key. Qed.
+Print Assumptions C16_key_out_of_range_is_no_key.
+
+Theorem C16_key_in_range_aliases : forall ideal k n m v x,
+  is_float k = false -> in_range k n = true -> conv_elem ideal v = inl x ->
+  let m1 := fst (kstep ideal (KKNum k) m (KSet (NInt n) v)) in
+  snd (kstep ideal (KKNum k) m1 (KGGet n)) = o_num x /\
+  snd (kstep ideal (KKNum k) m1 (KGet (NInt n))) = o_num x.
+Proof. exact key_in_range_aliases. Qed.
+Print Assumptions C16_key_in_range_aliases.
+
+(* JavaScript callbacks for Go func parameters: undefined is not a number, a thrown exception surfaces *)
+Theorem C16_callback_undefined_is_not_a_number : forall idn ids k,
+  cb_call idn ids (ROne (TNum k)) (CbRet JUndef) = CE 6.
+Proof. exact callback_undefined_is_not_a_number. Qed.
+Print Assumptions C16_callback_undefined_is_not_a_number.
+
+Theorem C16_callback_throw_surfaces : forall idn ids rt c,
+  rt <> RTwo -> cb_call idn ids rt (CbThrow c) = CE c.
+Proof. exact callback_throw_surfaces. Qed.
+Print Assumptions C16_callback_throw_surfaces.
+
 (* non-vacuity of the implications above *)
 Example C16_exact_hyp_met :
   src_wf (KF64, 4617315517961601024) = true /\
